@@ -283,14 +283,24 @@ static void op_CtxGlobalsProbe(const jv *in, jout *out) {
     /* count families */
     CX_ONLY = 1000; tmp.len = 0; tmp.first = 1; cx_call_all(ctx, &tmp, 1); nf = CX_FAMIDX;
     for (k = 0; k < nf; k++) {
-        size_t off = 0; int changed = 0, idx = 0; unsigned char hits[64]; size_t nh = 0;
-        for (c = syms ? syms->child : NULL; c; c = c->next) { unsigned long long a = (unsigned long long)jv_elem(c, 0)->i; size_t n = (size_t)jv_elem(c, 1)->i;
-            if (off + n > sizeof(cx_snap)) break; memcpy(cx_snap + off, (void*)(base + (uintptr_t)a), n); off += n; }
+        size_t off = 0; int idx = 0; unsigned char hits[64]; size_t nh = 0; static unsigned char cx_dirtied[256];
+        /* snapshot; a global that is currently ALL-ZERO (unused .bss) is filled with 0xA5 for the duration of the call: a routine that
+         * uses it as scratch space and wipes it afterwards would otherwise leave no net change */
+        for (c = syms ? syms->child : NULL; c; c = c->next, idx++) { unsigned long long a = (unsigned long long)jv_elem(c, 0)->i; size_t n = (size_t)jv_elem(c, 1)->i, j; int allz = 1;
+            unsigned char *g = (unsigned char*)(base + (uintptr_t)a);
+            if (off + n > sizeof(cx_snap)) break;
+            for (j = 0; j < n; j++) if (g[j]) allz = 0;
+            if (idx < 256) cx_dirtied[idx] = (unsigned char)allz;
+            if (allz) memset(g, 0xA5, n);
+            memcpy(cx_snap + off, g, n); off += n; }
         CX_ONLY = k; tmp.len = 0; tmp.first = 1; cx_call_all(ctx, &tmp, 1);
         off = 0; idx = 0;
         for (c = syms ? syms->child : NULL; c; c = c->next, idx++) { unsigned long long a = (unsigned long long)jv_elem(c, 0)->i; size_t n = (size_t)jv_elem(c, 1)->i;
-            if (off + n > sizeof(cx_snap)) break; if (memcmp(cx_snap + off, (void*)(base + (uintptr_t)a), n) != 0) { changed = 1; if (nh < 64) hits[nh++] = (unsigned char)idx; } off += n; }
-        (void)changed;
+            unsigned char *g = (unsigned char*)(base + (uintptr_t)a);
+            if (off + n > sizeof(cx_snap)) break;
+            if (memcmp(cx_snap + off, g, n) != 0) { if (nh < 64) hits[nh++] = (unsigned char)idx; }
+            if (idx < 256 && cx_dirtied[idx]) memset(g, 0, n);       /* back to the unused state */
+            off += n; }
         sprintf(key, "w%d", k); jo_bytes(out, key, hits, nh);
     }
     CX_ONLY = -1;
